@@ -44,6 +44,9 @@ type Loop struct {
 	Counter, Counter0, Revcounter, Revcounter0 int
 	First, Last                                bool
 	Parent                                     *Loop
+	// EmptyRec: the record of a loop that had nothing to iterate (visible in its `empty` branch):
+	// only its Parentloop link is specified.
+	EmptyRec bool
 }
 
 func NilV() V          { return V{K: KNil} }
@@ -273,6 +276,9 @@ func (it *Interp) eval(x Expr, e *env) (V, error) {
 			switch v.K {
 			case KLoop:
 				l := v.Loop
+				if l.EmptyRec && st != "Parentloop" {
+					return NilV(), ErrSkip
+				}
 				switch st {
 				case "Counter":
 					v = IntV(l.Counter)
@@ -947,8 +953,8 @@ func (it *Interp) execFor(n For, e *env, b *strings.Builder) error {
 	}
 	if len(items) == 0 {
 		if n.HasEmpty {
-			// the loop record exists but its content in `empty` is not specified
-			sc.vars["forloop"] = V{K: KOpaque}
+			// the loop's own record is visible in `empty`; only its Parentloop link is specified
+			sc.vars["forloop"] = V{K: KLoop, Loop: &Loop{Parent: parent, EmptyRec: true}}
 			return it.exec(n.Empty, sc, b)
 		}
 		return nil
